@@ -15,7 +15,8 @@ def _outcome_obj(code):
 # node = {"id", "k": kind, "opt", "empty", "down", "up", "kids"}   ("c" of older cases is ignored: the
 # container / non-container split of the model is computed from the real class at run time, see `_flags`)
 #
-# kinds: "s" String, "i" Integer (scalar leaves); "d" Dict (kids = fields f0..), "sd" SparseDict (kids = the
+# kinds: "s" String, "i" Integer, "b" Boolean (scalar leaves; "zero": a non-empty leaf holds the FALSY value 0 /
+# False instead of 7 / True — an element that is falsy but not empty); "d" Dict (kids = fields f0..), "sd" SparseDict (kids = the
 # PRESENT fields f0.., "absent" more fields in the schema that have no element), "l" List, "a" Array,
 # "m" MultiValue (scalar members), "j" JoinedString (String members), "c" DateYYYYMMDD (Compound: year, month,
 # day Integer children).  Sequence members share one member schema (the first kid's shape).
@@ -23,13 +24,13 @@ def _outcome_obj(code):
 # "down" / "up": the outcomes of the validators the element runs on the way down / up.  They are installed under
 # the attribute the class names in `validates_down` / `validates_up` (read from the class when the case runs).
 
-LEAF_KINDS = ("s", "i")
+LEAF_KINDS = ("s", "i", "b")
 SEQ_KINDS = ("l", "a", "m", "j")
 # the documented split (docs/source/validation: every Container — mappings, sequences, Compound, MultiValue and
 # JoinedString included — has descent_validators for the way down and validators for the way up; scalars run
 # validators on the way down).  Used by the ORACLE only.
-DOC_CONTAINER = {"s": False, "i": False, "d": True, "sd": True, "l": True, "a": True, "m": True, "j": True, "c": True}
-KIND_CLASS = {"s": "String", "i": "Integer", "d": "Dict", "sd": "SparseDict", "l": "List", "a": "Array",
+DOC_CONTAINER = {"s": False, "i": False, "b": False, "d": True, "sd": True, "l": True, "a": True, "m": True, "j": True, "c": True}
+KIND_CLASS = {"s": "String", "i": "Integer", "b": "Boolean", "d": "Dict", "sd": "SparseDict", "l": "List", "a": "Array",
               "m": "MultiValue", "j": "JoinedString", "c": "DateYYYYMMDD"}
 
 
@@ -76,7 +77,7 @@ def _rand_shape(rng, depth, budget):
     | ("j", count) | ("c",)"""
     if depth <= 0 or budget[0] <= 1 or rng.random() < 0.3:
         budget[0] -= 1
-        return (rng.choice(["s", "s", "i"]),)
+        return (rng.choice(["s", "s", "i", "i", "b"]),)
     budget[0] -= 1
     r = rng.random()
     if r < 0.22:
@@ -103,9 +104,24 @@ def _rand_shape(rng, depth, budget):
     return ("c",)
 
 
-def _leaf(rng, kind, maxlen):
-    return {"k": kind, "opt": rng.random() < 0.4, "empty": rng.random() < 0.4,
-            "down": _rand_outcomes(rng, maxlen), "up": [], "kids": []}
+def _leaf(rng, kind, maxlen, falsy=False):
+    n = {"k": kind, "opt": rng.random() < 0.4, "empty": rng.random() < 0.4,
+         "down": _rand_outcomes(rng, maxlen), "up": [], "kids": []}
+    if kind != "s" and (falsy or rng.random() < 0.3):
+        n["zero"] = True
+    if falsy and kind == "s":
+        n["empty"] = True
+    return n
+
+
+def _leaf_value(node):
+    if node["empty"]:
+        return None
+    if node["k"] == "s":
+        return "x"
+    if node["k"] == "i":
+        return 0 if node.get("zero") else 7
+    return False if node.get("zero") else True
 
 
 def _instantiate(rng, shape, maxlen=3):
@@ -120,12 +136,16 @@ def _instantiate(rng, shape, maxlen=3):
         node["kids"] = [_instantiate(rng, s, maxlen) for s in shape[1]]
         node["absent"] = shape[2]
     elif k == "l":
-        node["kids"] = [_instantiate(rng, shape[1], maxlen) for _ in range(shape[2])]
+        falsy = shape[1][0] in LEAF_KINDS and rng.random() < 0.35
+        node["kids"] = [_leaf(rng, shape[1][0], maxlen, True) if falsy else _instantiate(rng, shape[1], maxlen)
+                        for _ in range(shape[2])]
     elif k in ("a", "m"):
-        node["kids"] = [_leaf(rng, shape[1], maxlen) for _ in range(shape[2])]
+        falsy = rng.random() < 0.35          # every member falsy as an element (0, False, no value)
+        node["kids"] = [_leaf(rng, shape[1], maxlen, falsy) for _ in range(shape[2])]
         node["member"] = shape[1]
     elif k == "j":
-        node["kids"] = [_leaf(rng, "s", maxlen) for _ in range(shape[1])]
+        falsy = rng.random() < 0.35
+        node["kids"] = [_leaf(rng, "s", maxlen, falsy) for _ in range(shape[1])]
     else:
         node["kids"] = [_leaf(rng, "i", maxlen) for _ in range(3)]
     return node
@@ -141,6 +161,8 @@ def _schema_for(node, name=None):
         cls = flatland.String
     elif k == "i":
         cls = flatland.Integer
+    elif k == "b":
+        cls = flatland.Boolean
     elif k == "d":
         cls = flatland.Dict.of(*[_schema_for(x, "f%d" % i) for i, x in enumerate(kids)])
     elif k == "sd":
@@ -162,10 +184,8 @@ def _schema_for(node, name=None):
 
 def _blank(node):
     k = node["k"]
-    if k == "s":
-        return None if node["empty"] else "x"
-    if k == "i":
-        return None if node["empty"] else 7
+    if k in LEAF_KINDS:
+        return _leaf_value(node)
     if k in ("d", "sd"):
         return {"f%d" % i: _blank(x) for i, x in enumerate(node["kids"])}
     if k == "j":
@@ -178,6 +198,10 @@ def _blank(node):
 def _flags(el):
     """(validates_down, validates_up) as the element's class has them NOW"""
     return getattr(el, "validates_down", None), getattr(el, "validates_up", None)
+
+
+class _ChildrenMismatch(Exception):
+    pass
 
 
 class _Run:
@@ -217,12 +241,13 @@ class _Run:
                 setattr(el, vd, [mk(node["id"], True, i, c) for i, c in enumerate(node["down"])])
             if vu:
                 setattr(el, vu, [mk(node["id"], False, i, c) for i, c in enumerate(node["up"])])
-            if node["k"] in LEAF_KINDS and bool(el.is_empty) != bool(node["empty"]):
-                el.set(None if node["empty"] else ("x" if node["k"] == "s" else 7))
+            if node["k"] in LEAF_KINDS:
+                el.set(_leaf_value(node))        # the intended content, whatever the library says about it
             kids = list(el.children)             # as the library's `children` property yields them
             if len(kids) != len(node["kids"]):
-                raise AssertionError("harness: %s has %d children, the case says %d" % (
-                    type(el).__name__, len(kids), len(node["kids"])))
+                # an observation about the library (reported by the oracle), not a crash of the harness
+                raise _ChildrenMismatch("%s (element %d) yields %d children, built with %d" % (
+                    type(el).__name__, node["id"], len(kids), len(node["kids"])))
             for ke, kn in zip(kids, node["kids"]):
                 go(ke, kn)
         go(self.root, tree)
@@ -541,6 +566,21 @@ class C05(Property):
         # the setter with False before validating: unvisited elements stay False, return value True
         cut = _number(_fix_empty(cont("d", [leaf("s", ["T"])], down=["SA"])))
         cases.append({"tree": cut, "hist": [{"op": "set_all_valid", "at": 0, "value": "F"}, {"op": "validate"}], "signal": True})
+        # seeded C05-sequence-is-empty-any-children: sequences whose members are all falsy elements (0, False, no
+        # value, empty inner lists) are NOT empty - optional ones run their validators, required ones without
+        # validators pass the default check
+        zero = dict(leaf("i", ["T"]), zero=True)
+        fz = cont("d", [
+            cont("l", [dict(zero)], down=["T"], up=["F"], opt=True),
+            cont("l", [dict(zero), dict(zero)]),
+            cont("a", [dict(leaf("b"), zero=True)], down=["F"], up=["T"], opt=True, member="b"),
+            cont("m", [dict(leaf("i"), zero=True)], up=["N"], opt=True, member="i"),
+            cont("j", [leaf("s", empty=True)], down=["T"], up=["T", "F"], opt=True),
+            cont("l", [cont("l", []), cont("l", [])], up=["F"], opt=True),
+            cont("l", [leaf("s", ["T"], empty=True, opt=True)]),
+        ], down=["T"], up=["T"])
+        fz = _number(_fix_empty(fz))
+        cases.append({"tree": fz, "hist": [{"op": "validate"}, {"op": "norecurse", "at": 1}], "signal": True})
         return cases
 
     def exhaustive(self, tier):
@@ -650,6 +690,10 @@ class C05(Property):
         hist = _history(case)
         run = _Run(case["tree"])
         want_signal = bool(case.get("signal"))
+        try:
+            run.dress(case["tree"])
+        except _ChildrenMismatch as e:
+            return {"steps": [], "children_as_built": str(e), "_hist": [], "_receivers_left": 0, "_classes": []}
 
         def receiver(sender, element=None, state=None, result=None, **kw):
             nid = run.idof.get(id(element), -1)
@@ -667,7 +711,11 @@ class C05(Property):
             validator_validated.connect(receiver, weak=False)
         try:
             for op, tree, at, value in hist:
-                run.dress(tree)
+                try:
+                    run.dress(tree)
+                except _ChildrenMismatch as e:
+                    return {"steps": steps, "children_as_built": str(e), "_hist": model_hist,
+                            "_receivers_left": 0, "_classes": []}
                 mt = run.model_tree(tree)
                 start = len(run.events)
                 o = {}
@@ -711,13 +759,18 @@ class C05(Property):
         obs = self.run_impl(case)
         fails = []
         prev = {}
+        if "children_as_built" in obs:
+            return [{"clause": "children-as-built", "expected": "`children` yields the members / fields the element was built with",
+                     "observed": obs["children_as_built"]}]
         if obs["_receivers_left"]:
             fails.append({"clause": "harness: receiver left connected", "observed": obs["_receivers_left"]})
         for r, ((op, tree, at, value), o) in enumerate(zip(_history(case), obs["steps"])):
             tag = " (step %d: %s%s)" % (r, op, "" if at is None else " at %d" % at)
             want_empty = [[m["id"], bool(m["empty"])] for m in _preorder(tree)]
             if o["empties"] != want_empty:
-                fails.append({"clause": "is_empty-per-kind" + tag, "expected": want_empty, "observed": o["empties"]})
+                # emptiness as DOCUMENTED per kind (`_doc_empty`: a sequence / SparseDict is empty iff it has no
+                # member, whatever the members hold), not as the library under test computes it
+                fails.append({"clause": "is-empty-means-no-content" + tag, "expected": want_empty, "observed": o["empties"]})
             if op == "validate":
                 exp, now = expected(tree, prev)
             elif op == "norecurse":
@@ -825,8 +878,7 @@ class C05(Property):
                 dropped = c["hist"].pop(i)
                 if i == 0 and "tree" in c["hist"][0]:
                     c["tree"] = c["hist"][0].pop("tree")
-                if any(st["op"] != "set_all_valid" for st in c["hist"]):
-                    yield c
+                yield c
         if case.get("signal"):
             c = copy.deepcopy(case)
             c["signal"] = False
